@@ -192,8 +192,10 @@ fn main() {
 	);
 	check.assume("tiles with empty payloads are not generated (several formats cannot tell them from absent tiles)");
 	vt::engine::watchdog(3600);
+	// pipelines only: the direct container leaves of this check keep their MBTiles share
+	vt::sources::MBTILES_THINNING.store(4, std::sync::atomic::Ordering::Relaxed);
 	let reg: Vec<Case> = check.regression_cases("coverage");
 	check.enumerate("regressions", reg, false, oracle);
-	check.phase("coverage", check.cases(4000, 120_000), strategy, oracle);
+	check.phase("coverage", check.cases(12_000, 300_000), strategy, oracle);
 	check.finish();
 }
